@@ -15,6 +15,10 @@ from .lower import LoweringError, Module, lower_function
 from .rt import CInt, View, coerce, ctype, is_ctype
 
 
+from .fp import CFloat, F32, F64
+_FLOAT_TYPES = {"float": F32, "float32": F32, "np.float32_t": F32, "double": F64, "float64": F64}
+
+
 class KBytes:
     """bytes / bytearray of C unsigned chars (concrete length)"""
 
@@ -157,8 +161,13 @@ class Kernel:
                 return None
             raise Escape(f"cannot view {type(v).__name__} as {ty}")
         if is_ctype(ty):
+            if hasattr(v, "to_cint"):
+                return v.to_cint(ty)
             return coerce(ty, v) if checked or isinstance(v, (CInt, bool, SBool)) else coerce(ty, v)
-        return v          # object, str, bytes, list, double ... : python value as is
+        fs = _FLOAT_TYPES.get(" ".join(ty.split())) if isinstance(ty, str) else None
+        if fs is not None and isinstance(v, (CFloat, CInt)):
+            return v.conv(fs) if isinstance(v, CFloat) else CFloat(0, fs)._lift(v)
+        return v          # object, str, bytes, list, concrete double ... : python value as is
 
     def _arg(self, ty, v):
         return self._typed(ty, v, True)
@@ -172,6 +181,8 @@ class Kernel:
         return self._typed(ty, v, True)
 
     def _cast(self, ty, v):
+        if hasattr(v, "to_cint"):
+            return self._typed(ty, v, True)
         if is_ctype(ty):
             if isinstance(v, CInt):
                 return v.conv(ty)
